@@ -262,7 +262,11 @@ pub struct CoseKdfContext {
     supp_pub_info: SuppPubInfo,
     supp_priv_info: Vec<Vec<u8>>,
 }
-
+«
+impl CoseKdfContext { pub closed spec fn is_default(self) -> bool {
+    self.algorithm_id == Algorithm::Assigned(iana::Algorithm::Reserved) && self.party_u_info.is_default() && self.party_v_info.is_default()
+    && self.supp_pub_info.is_default() && self.supp_priv_info@.len() == 0 } }
+»
 impl crate::CborSerializable for CoseKdfContext {}
 
 impl AsCborValue for CoseKdfContext {
